@@ -199,6 +199,9 @@ def one_case(args):
     refs = rng.choice([['outdir'], ['outdir'], ['outdir/*'], [os.path.join('outdir', n) for n in sorted(beh['files'])] or ['outdir']])
     if beh.get('sibling'):
         refs = ['outdir', rng.choice([sibling, os.path.join('..', os.path.basename(sibling))])]
+    if beh.get('tmp') and refs != ['outdir']:
+        # (an output written under $TMPDIR must not be nominated as a file of the output directory)
+        refs = ['outdir']
     if refs == ['outdir']:
         # a file in the reference directory that the command does not produce (only a directory argument
         # asks gentest to work out which files the command writes)
